@@ -232,6 +232,10 @@ def check_sentence(E, case, si, out, oracle_budget=40000, witness=None, nbest_re
     k = cfg.get('nbest', 1)
     penalty = cfg['unary_penalty']
     summary = {'parsed': False, 'derivations': None}
+    if len(res) == 0:
+        E.violation('tree:not-a-result', f'sentence {si}: an empty result list was returned (neither a parse nor the failure placeholder)', wit)
+        E.violation('nbest:count', f'sentence {si}: an empty result list was returned', wit)
+        return summary
     if n > cfg.get('max_length', 250):
         if not is_placeholder(res):
             E.violation('tree:not-a-result', 'over-long sentence did not yield the failure placeholder', wit)
